@@ -291,6 +291,22 @@ func primPairItems(c *Ctx) []Item {
 				n := n
 				items = append(items, Item{ID: fmt.Sprintf("prim:%s/n=%d", p.Name, n), Run: func(c *Ctx) { c03Writer(c, p, n) }})
 			}
+		}
+		if p.Family == "WriteBasicTypeList" && typeWidth(p.TArgs[1]) > 8 {
+			// long lists (size thresholds of bulk / block-wise paths); prefix types that can count that far
+			lens := []int{64, 300}
+			if c.thorough() {
+				lens = []int{64, 65, 255, 256, 1025, 4097}
+			}
+			for _, n := range lens {
+				n := n
+				if typeWidth(p.TArgs[0]) == 8 && n > 255 {
+					continue
+				}
+				items = append(items, Item{ID: fmt.Sprintf("primlong:%s/n=%d", p.Name, n), Run: func(c *Ctx) { c03LongList(c, p, n) }})
+			}
+		}
+		switch p.Family {
 		case "ReadBasicType", "ReadString":
 			items = append(items, Item{ID: "prim:" + p.Name, Run: func(c *Ctx) { c03Reader(c, p, 0) }})
 		case "ReadBasicTypeList", "ReadStringList", "ReadFixedStringList", "ReadFixedStringListTrimPadding", "ReadObjectList":
@@ -530,3 +546,106 @@ func (h *primHarness) wantList() []*SVal {
 }
 
 var _ = types.Typ
+
+// c03LongList: basic-type list writers/readers far beyond the small shapes (one shared symbolic element value,
+// concrete count): block-wise or bulk fast paths that start at a size threshold must keep the declared order.
+func c03LongList(c *Ctx, p primInst, n int) {
+	e := c.e()
+	h := c.buildWriterShared(p, n)
+	if h == nil {
+		return
+	}
+	oldU := e.unroll
+	e.unroll = n + 8
+	defer func() { e.unroll = oldU }()
+	el := h.s.heap[h.args[1].(*SliceV).Obj].E[0].(*Term)
+	// expected rendering in the declared order
+	var exp []*Term
+	exp = append(exp, intBytes(C(typeWidth(p.TArgs[0]), uint64(n)), p.LE)...)
+	eb := intBytes(el, p.LE)
+	for i := 0; i < n; i++ {
+		exp = append(exp, eb...)
+	}
+	expB := VecBytes(exp)
+	rname := "Read" + strings.TrimPrefix(p.Base, "Write")
+	var rp *primInst
+	for _, q := range c.primInstances() {
+		q := q
+		if q.Base == rname && strings.Join(q.TArgs, ",") == strings.Join(p.TArgs, ",") {
+			rp = &q
+		}
+	}
+	wsteps := func(val func(*Term) uint64) []map[string]any {
+		return []map[string]any{step("op", "newbuf", "buf", "b", "hex", ""), step("op", "prim", "fn", p.Name, "args", h.jargs(val))}
+	}
+	e.pushCall(h.s, p.Fn, h.args, nil)
+	for _, ws := range e.Run(h.s) {
+		if c.PathProblem(ws, p.Name, func(val func(*Term) uint64, msg string) *Violation {
+			return &Violation{Obligation: "no-panic", Detail: p.Name + " panics: " + msg, Replay: &ReplayReq{Steps: wsteps(val), Judge: Judge{Kind: "panic"}}}
+		}) {
+			continue
+		}
+		if !isNilErr(ws.ret) {
+			c.Prove(ws, "succeeds", False, func(val func(*Term) uint64) *Violation {
+				return &Violation{Detail: fmt.Sprintf("%s returns an error on %d elements", p.Name, n), Replay: &ReplayReq{Steps: wsteps(val), Judge: Judge{Kind: "err_nonnil", Step: 1}}}
+			})
+			continue
+		}
+		out := ws.heap[h.bufID].B
+		mk := func(what string) func(val func(*Term) uint64) *Violation {
+			return func(val func(*Term) uint64) *Violation {
+				return &Violation{Detail: what, Model: map[string]any{"n": n, "element": val(el)},
+					Replay: &ReplayReq{Steps: wsteps(val), Judge: Judge{Kind: "buf_ne", Step: 1, ExpectHex: hexOf(evalBytes(expB, val))}}}
+			}
+		}
+		if c.Prove(ws, "length", Eq(out.Len, expB.Len), mk(fmt.Sprintf("%s with %d elements: output length differs from the reference rendering", p.Name, n))) {
+			c.Prove(ws, "byteorder:all", regionGoal(out, expB, CI(0), expB.Len, 0), mk(fmt.Sprintf("%s with %d elements: count or elements are not in %s byte order", p.Name, n, orderName(p.LE))))
+		}
+		c.Witness(ws, "long list", func(val func(*Term) uint64) any { return map[string]any{"fn": p.Name, "n": n, "element": val(el)} })
+	}
+	if rp == nil {
+		return
+	}
+	// reader: the reference rendering must come back as n times the element
+	rs0 := c.w.newState()
+	rs0.pc = append(rs0.pc, h.s.pc...)
+	bufID := rs0.newObj(&Obj{Kind: kBuffer, B: expB, R: CI(0)})
+	rsteps := func(val func(*Term) uint64) []map[string]any {
+		return []map[string]any{step("op", "newbuf", "buf", "b", "hex", hexOf(evalBytes(expB, val))), step("op", "prim", "fn", rp.Name, "args", []any{map[string]any{"buf": "b"}})}
+	}
+	e.pushCall(rs0, rp.Fn, []Value{&Ptr{Obj: bufID}}, nil)
+	for _, rs := range e.Run(rs0) {
+		if c.PathProblem(rs, rp.Name, func(val func(*Term) uint64, msg string) *Violation {
+			return &Violation{Obligation: "no-panic", Detail: rp.Name + " panics: " + msg, Replay: &ReplayReq{Steps: rsteps(val), Judge: Judge{Kind: "panic"}}}
+		}) {
+			continue
+		}
+		rv := rs.ret.(TupleV)
+		if !isNilErr(rv[1]) {
+			c.Prove(rs, "reads-reference", False, func(val func(*Term) uint64) *Violation {
+				return &Violation{Detail: fmt.Sprintf("%s rejects the reference rendering of %d elements", rp.Name, n), Replay: &ReplayReq{Steps: rsteps(val), Judge: Judge{Kind: "err_nonnil", Step: 1}}}
+			})
+			continue
+		}
+		res := rv[0].(*SliceV)
+		var cs []*Term
+		cs = append(cs, Eq(res.Len, CI(int64(n))))
+		if res.Len.IsConst() && int(res.Len.Val) == n && res.Off.IsConst() {
+			o := rs.heap[res.Obj]
+			for i := 0; i < n; i++ {
+				if t, ok := o.E[int(res.Off.Val)+i].(*Term); ok {
+					cs = append(cs, Eq(t, el))
+				}
+			}
+		}
+		// native judge: re-encode is not available for a bare list; the values are compared through the writer twin
+		c.Prove(rs, "reads-values", And(cs...), func(val func(*Term) uint64) *Violation {
+			want := make([]any, n)
+			for i := range want {
+				want[i] = fmt.Sprint(val(el))
+			}
+			return &Violation{Detail: fmt.Sprintf("%s on the %s rendering of %d elements does not return them", rp.Name, orderName(p.LE), n), Model: map[string]any{"n": n, "element": val(el)},
+				Replay: &ReplayReq{Steps: rsteps(val), Judge: Judge{Kind: "ret_ne", Step: 1, ExpectRet: want}}}
+		})
+	}
+}
